@@ -21,6 +21,7 @@ def respond (line : String) : List String :=
     | .error m => [s!"bad-request {m}"]
     | .ok r => skelFacts r
   | "conc" :: rest => concFacts rest
+  | "doc" :: rest => docFacts rest
   | _ => ["bad-request unknown"]
 
 partial def loop (h : IO.FS.Stream) (out : IO.FS.Stream) : IO Unit := do
